@@ -1037,6 +1037,121 @@ def part_d(ctx, cov, dist, rng, repo, only=None):
         peer.close()
 
 
+# ------------------------------------------------------------------------------------- (f) xrcmd in a scripted world
+
+def part_f(ctx, cov, dist, rng, only=None):
+    """the unmodified xrcmd.c in harness/xrcmd_harness.c: which reserved ports are busy, what every connect() answers,
+    whether sleep() is interrupted, what xpoll()/accept() report and what the peer replies are the case; observed:
+    every call on xrcmd's sockets in order.  vs `pdshmodel rcmd model` (xr lines, Exec/Xrcmd.lean) and judged by
+    `pdshmodel rcmd spec` (xrobs lines, Exec/XrcmdSpec.lean): nothing written before a connect() succeeded; a call
+    that returns a socket has written exactly port NUL luser NUL ruser NUL cmd NUL with the port of a socket that is
+    listening when the first byte goes out (empty without the stderr channel)"""
+    exe = os.path.join(ctx.scratch, "xrcmd_harness")
+    if not ctx.cc(exe, [os.path.join(HARNESS, "xrcmd_harness.c")], san=True, assertions=True):
+        return
+    conns = ["o", "ao", "aao", "ro", "rro", "aro", "rao", "rrrrro", "rrrrrr", "rrrrrro", "x", "ax", "rx", "a" * 12 + "o", "-",
+             "arararo", "aaax"]
+    busys = ["-", "1022", "1023", "1022,1021,1020", "1023,1022", ",".join(str(x) for x in range(1022, 958, -2)),
+             ",".join(str(x) for x in range(513, 1024)), ",".join(str(x) for x in range(512, 1024)),
+             ",".join(str(x) for x in range(514, 1024)), "1021", ",".join(str(x) for x in range(1023, 900, -1))]
+    accs = ["1000", "512", "1023", "511", "1024", "5000", "0", "~", "65535"]
+    replies = ["00", "-", "~", hx("\x01no\n"), hx("\x00A"), hx("\x01" + "e" * 100), hx("\n"), hx("\x01")]
+    users = ["root", "a", "x_y", "u" * 32, "svc$"]
+    cmds = ["true", "", "echo a  b %h%%", "y" * 2040, "y" * 2048, "y" * 5000, "e " + "z" * 2039]
+
+    def line(errch, lu, ru, cmd, busy, cs, sl, po, acc, reply):
+        return "xr %d %s %s %s %s %s %d %d %s %s" % (errch, hx(lu), hx(ru), hx(cmd), busy, cs, sl, po, acc, reply)
+    cases = []
+    if only is None:
+        for errch in (1, 0):
+            for cs in conns:
+                for busy in busys:
+                    cases.append(line(errch, "root", "bob", "true", busy, cs, 1, 1, "1000", "00"))
+            for cs in ("ro", "rrro", "rrrrrr"):
+                cases.append(line(errch, "root", "bob", "true", "-", cs, 0, 1, "1000", "00"))
+            for acc in accs:
+                for po in (1, 0):
+                    for busy in ("-", "1022"):
+                        cases.append(line(errch, "root", "bob", "id", busy, "o", 1, po, acc, "00"))
+            for reply in replies:
+                for busy in ("-", "1022,1021"):
+                    cases.append(line(errch, "root", "bob", "id", busy, "ao", 1, 1, "900", reply))
+            for lu in users:
+                for ru in users[1:]:
+                    cases.append(line(errch, lu, ru, "id", "1022", "o", 1, 1, "1000", "00"))
+            for cmd in cmds:
+                cases.append(line(errch, "root", "bob", cmd, "1022", "ao", 1, 1, "1000", "00"))
+        n = 1500 if ctx.quick() else 20000
+        for _ in range(n):
+            cs = rng.choice(conns) if rng.random() < 0.6 else "".join(rng.choice("aarrox") for _ in range(rng.randrange(1, 9)))
+            busy = rng.choice(busys) if rng.random() < 0.5 else \
+                ",".join(str(x) for x in sorted(rng.sample(range(1000, 1024), rng.randrange(0, 12)), reverse=True)) or "-"
+            cases.append(line(rng.choice([1, 1, 0]), rng.choice(users), rng.choice(users), rng.choice(cmds), busy, cs,
+                              rng.choice([1, 1, 1, 0]), rng.choice([1, 1, 1, 0]), rng.choice(accs + ["1000"] * 6),
+                              rng.choice(replies + ["00"] * 8)))
+    else:
+        cases = list(only)
+    (ans, crash), = run_batch([exe], [cases], env=SAN_ENV, timeout=600)
+    if crash is not None:
+        k = len(ans)
+        ctx.offender("crash", "xrcmd.c aborts (sanitizer report / fault) on `%s`: %s" % (cases[k][:200] if k < len(cases) else "?",
+                                                                                         crash[-500:]),
+                     {"xr": cases[k] if k < len(cases) else None})
+        cases = cases[:k]
+    ml = ctx.model("rcmd", "".join(c + "\n" for c in cases), args=["model", "unchanged"]) if cases else []
+    obs = []
+    for c, a in zip(cases, ans):
+        w = c.split()
+        obs.append("xrobs %s %s %s %s %s" % (w[1], w[2], w[3], w[4], a))
+    sl = ctx.model("rcmd", "".join(o + "\n" for o in obs), args=["spec"]) if obs else []
+    dist["xr"] = 0
+    b = dist.setdefault("xr_branches", {})
+
+    def hit(k):
+        b[k] = b.get(k, 0) + 1
+    seen = set()
+    for c, a, m, s_ in zip(cases, ans, ml, sl):
+        cov["evaluations"] += 1
+        dist["xr"] += 1
+        w = c.split()
+        hit("result:" + a.split()[0])
+        hit("stderr channel" if w[1] == "1" else "no stderr channel (fd2p NULL)")
+        evs = a.split()[1:]
+        if any(e.startswith("c") and e.endswith(":a") for e in evs):
+            hit("connect: EADDRINUSE, next lower port")
+        if any(e.startswith("s") for e in evs):
+            hit("connect: ECONNREFUSED, retry after sleep" + ("" if w[7] == "1" else " (interrupted)"))
+        if sum(1 for e in evs if e.startswith("s")) >= 5:
+            hit("connect: refused until the back-off is used up")
+        binds = [int(e[1:]) for e in evs if e.startswith("b")]
+        conn_ok = [int(e[1:].split(":")[0]) for e in evs if e.startswith("c") and e.endswith(":o")]
+        lis = [int(e[1:]) for e in evs if e.startswith("l")]
+        if conn_ok and lis and lis[0] != conn_ok[0] - 1:
+            hit("stderr port not directly below the primary port")
+        if not binds:
+            hit("no reserved port free at all")
+        if conn_ok and w[1] == "1" and not lis:
+            hit("no reserved port left for the stderr socket")
+        if w[9].isdigit() and not (512 <= int(w[9]) <= 1023) and any(e.startswith("a") for e in evs) and a.startswith("fail"):
+            hit("back-connection from a non-reserved port refused")
+        if "~" == w[9] and lis:
+            hit("accept fails")
+        if w[8] == "0" and lis:
+            hit("xpoll reports the wrong socket")
+        if w[10] != "00" and conn_ok and a.startswith("fail"):
+            hit("peer's reply is not a NUL byte")
+        if a != m:
+            ctx.disagreement("xrcmd model vs xrcmd.c", "`%s`: impl `%s` model `%s`" % (c[:200], a[:300], m[:300]), {"xr": c})
+        if conn_ok:
+            seen.add(c)
+        if s_ != "ok":
+            ctx.offender("xr:request", "xrcmd in the scripted world `%s`: the calls `%s` violate the specification of the "
+                                       "handshake (%s)" % (" ".join(w[5:]), a[:300], s_), {"xr": c, "impl": a, "model": m})
+    cov["distinct_nontrivial"] += len(seen)
+    if cases:
+        cov["samples"].append({"xr": cases[min(40, len(cases) - 1)], "observed": ans[min(40, len(ans) - 1)] if ans else None})
+
+
 # ------------------------------------------------------------------------------------- (e) ssh argument vector
 
 def part_e(ctx, cov, dist, rng, repo, variant, only=None):
@@ -1148,7 +1263,9 @@ def replay_items(ctx):
     ra, rb, rc_, rd, re_ = [], [], [], [], []
     for it in items:
         g = it.get("gen")
-        if g and g.get("ssh"):
+        if it.get("xr"):
+            ra.append(it["xr"])
+        elif g and g.get("ssh"):
             re_.append(g)
         elif it.get("line") and it["line"].split()[0] in ("fmt", "args"):
             ra.append(it["line"])
@@ -1189,7 +1306,11 @@ def run(ctx):
     if getattr(ctx, "replay", None):
         ra, rb, rc_, rd, re_ = replay_items(ctx)
         cov["rule"] = "replay of %s: exactly the recorded case(s)" % ctx.replay
+        rf = [x for x in ra if x.startswith("xr ")]
+        ra = [x for x in ra if not x.startswith("xr ")]
         variant = part_a(ctx, cov, dist, rng, only=ra)
+        if rf:
+            part_f(ctx, cov, dist, rng, only=rf)
         repo = ctx.repo_build() if (rb or rc_ or rd or re_) else None
         if repo is not None and variant is not None:
             if rb:
@@ -1204,7 +1325,8 @@ def run(ctx):
         variant = part_a(ctx, cov, dist, rng)
         repo = ctx.repo_build()
         if repo is not None and variant is not None:
-            for name, f in (("-R exec", lambda: part_b(ctx, cov, dist, rng, repo, variant)),
+            for name, f in (("xrcmd scripted", lambda: part_f(ctx, cov, dist, rng)),
+                            ("-R exec", lambda: part_b(ctx, cov, dist, rng, repo, variant)),
                             ("registry", lambda: part_c(ctx, cov, dist, rng, repo)),
                             ("rsh wire", lambda: part_d(ctx, cov, dist, rng, repo)),
                             ("ssh argv", lambda: part_e(ctx, cov, dist, rng, repo, variant))):
